@@ -1,0 +1,23 @@
+//go:build verif
+
+package tbtc
+
+import (
+	"github.com/keep-network/keep-core/pkg/chain"
+	"github.com/keep-network/keep-core/pkg/protocol/group"
+)
+
+// Verification hook (build tag verif) for property C08: re-exports
+// finalSigningGroup only.
+
+func VerifC08FinalSigningGroup(
+	selectedOperators []chain.Address,
+	operatingMembersIndexes []group.MemberIndex,
+	groupParameters *GroupParameters,
+) ([]chain.Address, map[group.MemberIndex]group.MemberIndex, error) {
+	return finalSigningGroup(
+		selectedOperators,
+		operatingMembersIndexes,
+		groupParameters,
+	)
+}
